@@ -28,3 +28,10 @@ CASES += [
     dict(id='c18-subgroup-private-settings', prop='C18', file='src/library/prog_args/handler.cpp', expect='R4',
          old="   mpUsageParams( main_ah.mpUsageParams),", new="   mpUsageParams( std::make_shared< detail::UsageParams>( *main_ah.mpUsageParams)),"),
 ]
+
+CASES += [
+    dict(id='c18-width-pass-wrong-setting', prop='C18', file='src/library/prog_args/detail/argument_desc.cpp', expect='R5',
+         old="          && !arg_desc.doPrint( false, mpUsageParams->printHidden(),", new="          && !arg_desc.doPrint( false, mpUsageParams->printDeprecated(),"),
+    dict(id='c18-description-word-dropped', prop='C18', file='src/library/format/text_block.cpp', expect='R6',
+         old="         os << tiWord;\n         currLength = mIndentSpaces.length() + tiWord.length();", new="         currLength = mIndentSpaces.length() + tiWord.length();"),
+]
